@@ -354,3 +354,47 @@ def innermost_header(f, bb):
         if any(hb in dom.get(p, ()) for p in pred[hb]) and hb in f.reachable_from(bb) and hb != bb:
             hs.append(hb)
     return max(hs, key=lambda h: len(dom.get(h, ()))) if hs else None
+
+
+def upvar_origin(db, cl, field_index):
+    """for a closure body `cl`, the operand in the parent function that initialises captured field N.
+    returns (parent_fn, operand) or (None, None)"""
+    parent = db.fns.get(_lexical_parent(db, cl))
+    if parent is None:
+        return None, None
+    for b in parent.blocks:
+        for s in b["s"]:
+            if s["r"] == "agg" and s.get("ak") == "closure" and s.get("adt") == cl.id:
+                if field_index < len(s["ops"]):
+                    return parent, s["ops"][field_index]
+    return parent, None
+
+
+def _lexical_parent(db, cl):
+    """the function whose body creates the closure (closure ids are `<parent>::{closure#N}`)"""
+    i = cl.id.rfind("::{closure#")
+    return cl.id[:i] if i > 0 else None
+
+
+def trace_to_origin(db, f, place, depth=0):
+    """follow a place through closure captures up to the function that owns the storage.
+    returns (fn, canon) where canon is canon_place in that fn"""
+    d = Defs(f)
+    cp = canon_place(f, place, d)
+    if f.closure and cp[0] == "param" and cp[1] == 1 and depth < 6:
+        proj = list(cp[2])
+        while proj and proj[0] == "*":      # `&mut closure` / `&closure` environments
+            proj.pop(0)
+        if proj and proj[0][0] == "f":
+            try:
+                n = int(proj[0][1])
+            except ValueError:
+                return f, cp
+            parent, o = upvar_origin(db, f, n)
+            if parent is not None and o is not None:
+                p = op_place(o)
+                if p is not None:
+                    pf, pc = trace_to_origin(db, parent, p, depth + 1)
+                    rest = tuple(_simplify(list(pc[2]) + ["&"] + proj[1:])) if False else tuple(e for e in (list(pc[2]) + proj[1:]) if e != "*")
+                    return pf, (pc[0], pc[1], rest)
+    return f, (cp[0], cp[1], tuple(e for e in cp[2] if e != "*"))
